@@ -96,3 +96,6 @@ package ios
 //vc:  ensures[C15] @bannerOffsets !isnil(l) ==> prefix == out[:l[0]] && postfix == out[l[1]:] && msg == out[l[2]:l[3]]
 //vc:  ensures[C15] @bannerCutOut !isnil(l) && strings.TrimSpace(prefix + postfix) != "" ==> result0 == prefix + postfix
 //vc:  ensures[C15] @noBannerNoChange (!old(s.reloadActive) ==> result0 == out && !result1) && (isnil(l) ==> result0 == out && !result1)
+
+// text handed to the device, a file or a log is never interpreted as a printf format
+//vc:constformat[C01,C02]
